@@ -9,10 +9,10 @@ for f in sorted(glob.glob(os.path.join(root, "seeded", "*", "meta.json"))):
     rnd = int(re.search(r"round (\d+)", m["origin"]).group(1)) if re.search(r"round (\d+)", m["origin"]) else 1
     if m.get("detected") is False:
         fc = "not detectable by this oracle"
-    elif m.get("detected_by_check_of"):
+    elif m.get("detected_by_check_of") and not (m.get("check_strengthened") or m["detected_by"].startswith("MISSED")):
         fc = "caught by the %s check" % m["detected_by_check_of"]
     elif m.get("check_strengthened") or m["detected_by"].startswith("MISSED"):
-        fc = "missed → strengthened"
+        fc = "missed → strengthened" + (" (%s check)" % m["detected_by_check_of"] if m.get("detected_by_check_of") else "")
     else:
         fc = "caught"
     needs = m["needs_to_manifest"].replace("|", "/")
